@@ -138,6 +138,11 @@ pub trait StrLike: Sized {
     fn s_bytes_roundtrip(self) -> Self;
     fn s_add(self, s: &str) -> Self;
     fn s_inspect(&mut self, other: &Self, k: u8, pool: &str, obs: &mut Obs);
+    fn s_as_mut_str(&mut self) -> &mut str;
+    /// take the string apart into (ptr, len, capacity) and rebuild it with the container's from_raw_parts
+    fn s_raw_roundtrip(self) -> Self;
+    /// Display text of the container's UTF-16 decoding error for a lone surrogate
+    fn s_utf16_err(&self, obs: &mut Obs);
     /// (valid_up_to, error text, bytes handed back) of the container's from_utf8 on invalid input
     fn s_from_utf8_err(&self, bytes: &[u8], obs: &mut Obs);
 }
@@ -155,7 +160,7 @@ impl<'a> Iterator for TickChars<'a> {
 }
 
 macro_rules! impl_strlike {
-    ($ty:ty, $fresh:expr, $fromstr:expr, $fromchars:expr, $format:expr, $leak:expr, $roundtrip:expr, $utf8err:expr) => {
+    ($ty:ty, $fresh:expr, $fromstr:expr, $fromchars:expr, $format:expr, $leak:expr, $roundtrip:expr, $utf8err:expr, $raw:expr, $utf16err:expr) => {
         impl StrLike for $ty {
             fn fresh(&self) -> Self {
                 $fresh(self)
@@ -207,6 +212,15 @@ macro_rules! impl_strlike {
             }
             fn s_drain(&mut self, r: (Bound<usize>, Bound<usize>), mode: u8, obs: &mut Obs) {
                 let mut d = self.drain(r);
+                {
+                    let (lo, hi) = d.size_hint();
+                    obs.n(lo as i64 * 1000 + hi.map_or(999, |x| x as i64));
+                    // Debug of the drain is exercised but its text is not part of the contract (std's shows the
+                    // remaining text, the fork prints a placeholder)
+                    let _g = Callback::enter();
+                    let t = format!("{:?}", d);
+                    obs.n(t.is_empty() as i64);
+                }
                 match mode {
                     0 => {}
                     1 => {
@@ -271,6 +285,15 @@ macro_rules! impl_strlike {
             fn s_from_utf8_err(&self, bytes: &[u8], obs: &mut Obs) {
                 $utf8err(self, bytes, obs)
             }
+            fn s_as_mut_str(&mut self) -> &mut str {
+                self.as_mut_str()
+            }
+            fn s_raw_roundtrip(self) -> Self {
+                $raw(self)
+            }
+            fn s_utf16_err(&self, obs: &mut Obs) {
+                $utf16err(self, obs)
+            }
             fn s_add(self, s: &str) -> Self {
                 self + s
             }
@@ -286,7 +309,11 @@ impl_strlike!(
     BString<'static>,
     |s: &BString<'static>| BString::new_in(sb(s)),
     |s: &BString<'static>, t: &str| BString::from_str_in(t, sb(s)),
-    |s: &BString<'static>, t: &str| BString::from_iter_in(t.chars(), sb(s)),
+    |s: &BString<'static>, t: &str| {
+        // both spellings: String::from_iter_in and FromIteratorIn for String through collect_in
+        use bumpalo::collections::CollectIn;
+        if t.len() % 2 == 0 { BString::from_iter_in(t.chars(), sb(s)) } else { t.chars().collect_in::<BString<'static>>(sb(s)) }
+    },
     |s: &BString<'static>, a: &str, n: usize| {
         let b = sb(s);
         bumpalo::format!(in b, "{}:{}|{:>4}", a, n, a)
@@ -318,6 +345,21 @@ impl_strlike!(
                 }
             }
         }
+    },
+    |s: BString<'static>| -> BString<'static> {
+        let mut m = std::mem::ManuallyDrop::new(s);
+        let (p, l, c, b) = (m.as_mut_ptr(), m.len(), m.capacity(), sb(&m));
+        unsafe { BString::from_raw_parts_in(p, l, c, b) }
+    },
+    |s: &BString<'static>, obs: &mut Obs| {
+        match BString::from_utf16_in(&[0x61, 0xD800, 0x62], sb(s)) {
+            Ok(_) => obs.n(-1),
+            Err(e) => {
+                let _g = Callback::enter();
+                let t = format!("{}", e);
+                obs.n(fold_str(&t));
+            }
+        }
     }
 );
 
@@ -346,6 +388,20 @@ impl_strlike!(
                 for b in back.iter() {
                     obs.n(*b as i64);
                 }
+            }
+        }
+    },
+    |s: String| -> String {
+        let mut m = std::mem::ManuallyDrop::new(s);
+        let (p, l, c) = (m.as_mut_ptr(), m.len(), m.capacity());
+        unsafe { String::from_raw_parts(p, l, c) }
+    },
+    |_s: &String, obs: &mut Obs| {
+        match String::from_utf16(&[0x61, 0xD800, 0x62]) {
+            Ok(_) => obs.n(-1),
+            Err(e) => {
+                let t = format!("{}", e);
+                obs.n(fold_str(&t));
             }
         }
     }
@@ -420,6 +476,8 @@ where
                 let m: &mut str = &mut **s;
                 m.make_ascii_lowercase();
             }
+            obs.n(fold_str(s.st()));
+            s.s_as_mut_str().make_ascii_uppercase();
             obs.n(fold_str(s.st()));
         }
         3 => {
@@ -581,6 +639,13 @@ fn apply<S: StrLike>(slot: &mut Option<S>, world: u8, act: SAct) -> Obs {
                 for bytes in [&b"ab\xffcd"[..], &b"\xe2\x82"[..], &b"ok"[..], &b"\xf0\x9f\x98"[..], &b"a\xc3\x28"[..]] {
                     s.s_from_utf8_err(bytes, &mut obs);
                 }
+                s.s_utf16_err(&mut obs);
+            } else if k == 21 {
+                let fresh = s.fresh();
+                let old = slot.replace(fresh).unwrap();
+                let n = old.s_raw_roundtrip();
+                obs.n(n.st().len() as i64);
+                drop(slot.replace(n));
             } else {
                 let mut other = s.s_clone();
                 if k % 2 == 1 {
@@ -675,11 +740,11 @@ impl StrModel {
         a.push(SAct::Pop);
         a.push(SAct::Clear);
         a.push(SAct::CloneCmp);
-        for k in [0u8, 1, 2, 3, 7, 20] {
+        for k in [0u8, 1, 2, 3, 7, 20, 21] {
             a.push(SAct::Inspect { k });
         }
-        if room >= 8 {
-            // the Extend impls for &char / Self / std String / Cow<str>, and +=
+        if nch <= 1 {
+            // the Extend impls for &char / Self / std String / Cow<str>, and += (on short strings only: they grow the text)
             for k in [4u8, 5, 6] {
                 a.push(SAct::Inspect { k });
             }
